@@ -260,6 +260,11 @@ def step (line : String) : String :=
       | some bs => "ok " ++ showBlocks bs
       | none => "err"
     | _, _, _ => "bad-op"
+  | ["dechex", h] =>
+    -- eth.DecodeHex on the string whose bytes are given in hex
+    match hexArg h with
+    | some bs => "ok " ++ showHex (Row.decodeHexStr (String.ofList (bs.map Char.ofNat)))
+    | none => "bad-op"
   | ["safe", h] =>
     match hexArg h with
     | some bs => if Safe.safe (fun _ => false) bs then "ok" else "err"
